@@ -207,6 +207,18 @@ def run(ctx, idx):
                             a2 = defs[0] if len(defs) == 1 else a2
                         ch = escape_chain(a2, all_funcs)
                         if ch:
+                            # the reader's decoding (extracted from t_STRING) undoes the writer's escaping on every short value
+                            from . import strcodec
+
+                            decd = strcodec.reader_decoder(idx, L)
+                            if decd["kind"] == "eval":
+                                pass  # decided under C10.f (Python literal reader)
+                            else:
+                                wit_rt = strcodec.round_trip_witness(ch, decd)
+                                ctx.ob("C15.b", con + "::decoded-back", K.rel(f), n.lineno, wit_rt is None,
+                                       "reader decoding (%s) inverts the writer's escaping on every value of up to 4 characters over %r" % (decd["kind"], "".join(strcodec.ALPHABET)) if wit_rt is None else
+                                       "the value %r is written as \"%s\" and read back as %r: the reader's decoding (%s) does not undo the writer's escaping" % (wit_rt[0], wit_rt[1], wit_rt[2],
+                                           "successive replacements %s" % (decd["pairs"],) if decd["kind"] == "chain" else decd["kind"]))
                             W = written_string_language(ch)
                             wit = RL.not_included(RL.dfa(W), dfas["STRING"])
                             ctx.ob("C15.b", con + "::read-back", K.rel(f), n.lineno, wit is None,
@@ -235,6 +247,17 @@ def run(ctx, idx):
     allsrc = " ".join(K.src(f.node) for f in funcs)
     # nested lists: the element serialiser must itself recognise list values
     elem_handles_list = False
+    elem_handles_wrapped = False
+    # does the loader wrap a list inside a list as a ListArgument element?  (Program.from_source / its list helper)
+    fsrc = prog.methods.get("from_source")
+    loader_wraps = False
+    if fsrc is not None:
+        for g_ in [fsrc] + list(fsrc.nested.values()):
+            for c_ in own_nodes(g_.node):
+                if isinstance(c_, ast.Call) and K.src(c_.func).endswith("ListArgument") and len(c_.args) >= 2 and isinstance(c_.args[1], (ast.ListComp, ast.GeneratorExp)):
+                    inner = [x for x in ast.walk(c_.args[1].elt) if isinstance(x, ast.Call) and (K.src(x.func).endswith("ListArgument") or (isinstance(x.func, ast.Name) and x.func.id == g_.name))]
+                    if inner:
+                        loader_wraps = True
     for f in funcs:
         for n in own_nodes(f.node):
             if isinstance(n, (ast.GeneratorExp, ast.ListComp)) and K.src(n.generators[0].iter).endswith(".value") and isinstance(n.elt, ast.Call) and isinstance(n.elt.func, ast.Name) and n.elt.func.id in byname:
@@ -245,9 +268,14 @@ def run(ctx, idx):
                         q = K.src(m.args[1])
                         if "ListArgument" in q or "list" in q:
                             elem_handles_list = True
-    ctx.ob("C15.c", "%s::nested-lists" % ts.key, rel, ts.node.lineno, elem_handles_list,
-           "list elements that are lists are serialised recursively" if elem_handles_list else
-           "a list inside a list is printed with str(): a nested ListArgument loaded from source comes out as `<mpilot.arguments.ListArgument object at 0x...>`")
+                        if "Argument" in q:
+                            elem_handles_wrapped = True
+    if elem_handles_list and loader_wraps and not elem_handles_wrapped:
+        ctx.violate("C15.c", "%s::nested-lists" % ts.key, rel, ts.node.lineno, "the loader stores a list inside a list as a ListArgument element, but the element serialiser only recognises plain lists: a nested list of a program loaded from source is printed with str() as `<mpilot.arguments.ListArgument object at 0x...>`, which reloads as an unquoted string")
+    else:
+        ctx.ob("C15.c", "%s::nested-lists" % ts.key, rel, ts.node.lineno, elem_handles_list,
+               "list elements that are lists are serialised recursively" if elem_handles_list else
+               "a list inside a list is printed with str(): a nested ListArgument loaded from source comes out as `<mpilot.arguments.ListArgument object at 0x...>`")
     # Command objects: some `isinstance(x, Command)` test returns `x.result_name`
     has_cmd = False
     for f in funcs:
